@@ -229,6 +229,7 @@ def build(scn, ctx, result_factory=None):
             hook = getattr(ctx, "on_start", None)
             if hook:
                 hook(i, a)
+            ctx.in_call()  # the call takes time: other threads may run here
             if spec and a <= spec["n"]:
                 exc = EXC_TYPES[spec["exc"]](f"fail n{i} a{a}")
                 b.raised.setdefault(i, []).append(exc)
